@@ -281,6 +281,8 @@ def _multi_ace(rng, allow_neq=True, dups=False) -> tuple:
             v = grammar.rand_port(rng, grammar.port_vocab(proto, "ios", ""))
             if v not in vals:
                 vals.append(v)
+        if op == "eq" and cnt > 1 and rng.random() < 0.1 and 0 not in vals:
+            vals[rng.randrange(len(vals))] = 0  # the boundary port 0 is accepted in a list (its set is judged within 1..65535)
         if dups and op == "eq" and rng.random() < 0.5:  # the same port named twice (number/number or name/number)
             vals.insert(rng.randint(0, len(vals)), rng.choice(vals))
         return f" {op} " + " ".join(str(v) for v in vals), (op, cnt)
